@@ -214,8 +214,16 @@ def extract(src=SRC, verbose=False):
 
         raw = {"F": {}, "D": {}, "R": {}, "E": {}, "T": {}, "G": {}}
         for j in jobs:
-            with open(j["pkl"], "rb") as f:
-                tbl = pickle.load(f)
+            try:
+                with open(j["pkl"], "rb") as f:
+                    tbl = pickle.load(f)
+            except (FileNotFoundError, EOFError):
+                # evicted or still being written by a concurrent run: extract this unit again
+                _, err = run(j)
+                if err:
+                    raise AnalysisBroken("extractor failed on %s: %s" % (j["rel"], err))
+                with open(j["pkl"], "rb") as f:
+                    tbl = pickle.load(f)
             os.utime(j["pkl"])
             for kind, t in tbl.items():
                 dst = raw[kind]
